@@ -47,6 +47,8 @@ def check(ctx):
     ctx.rule("C09-H", "collapsed whitespace takes its tag with it: on every path of flush_word on which pending whitespace is "
              "discarded (wslen := 0 without being written), spacetag is cleared before the line is flushed — block padding is "
              "tagged with spacetag, so a stale one would put an inline element's annotations on the padding")
+    ctx.rule("C09-L", "annotating node kinds (Em, Strong, Strikeout, Code, Link, Img, Sup) are built only by the element dispatch of "
+             "process_dom_node")
     ctx.rule("C09-K", "the Link annotation carries the link's target as given: start_link hands its argument on unchanged")
     ctx.rule("C09-J", "an element's computed style travels on the node built for it: every reducer of the DOM walk that captured the "
              "element's ComputedStyle returns only nodes built by RenderNode::new_styled with it")
@@ -54,8 +56,35 @@ def check(ctx):
              "push_ws(n, tag) with the caller's tag and never grows an existing piece")
     for rid, fn in (("C09-A", rule_a), ("C09-B", rule_b), ("C09-C", rule_c), ("C09-D", rule_d),
                     ("C09-E", rule_e), ("C09-F", rule_f), ("C09-F", rule_f2), ("C09-C", rule_h), ("C09-G", rule_g),
-                    ("C09-H", rule_ws_tag), ("C09-I", rule_pad_tag), ("C09-J", rule_styled_nodes), ("C09-K", rule_link_target_verbatim)):
+                    ("C09-H", rule_ws_tag), ("C09-I", rule_pad_tag), ("C09-J", rule_styled_nodes), ("C09-K", rule_link_target_verbatim), ("C09-L", rule_annotating_nodes)):
         ctx.guard(rid, fn)
+
+
+ANNOTATING = ("Em", "Strong", "Strikeout", "Code", "Link", "Img", "Sup")
+
+
+def rule_annotating_nodes(ctx):
+    """Text carries the annotations of the elements that enclose it — and no others: a node kind that makes the renderer push
+    an annotation is built only by the element dispatch of process_dom_node (one construction per kind, in the arm of the
+    element that means it), never by the table or list builders or by insert_child."""
+    F = ctx.facts
+    from collections import Counter
+    c = Counter()
+    for b in F.bodies.values():
+        if b.raw.get("from_expansion") and b.kind != "Closure":
+            continue
+        for x in b.reachable():
+            for st in b.stmts(x):
+                rv = st.get("rv") or {}
+                if rv.get("agg") == "adt" and ends(rv.get("adt"), "RenderNodeInfo") and rv.get("variant") in ANNOTATING:
+                    root = b.root if b.kind == "Closure" else b.id
+                    c[(root, rv["variant"])] += 1
+                    ctx.check(root == "process_dom_node", "C09-L", "annotating-node:%s@%s" % (rv["variant"], fn_key(b)), st["span"], b.id,
+                              "a %s node is built outside the element dispatch of the DOM walk: the text below it gets a %s annotation "
+                              "that no enclosing %s element accounts for" % (rv["variant"], rv["variant"], rv["variant"].lower()))
+    for v in ANNOTATING:
+        n = sum(k for (r, vv), k in c.items() if vv == v)
+        ctx.check(n >= 1, "C09-L", "annotating-node:%s:constructed" % v, "", "", "%d constructions" % n)
 
 
 def rule_link_target_verbatim(ctx):
